@@ -199,6 +199,7 @@ func pointerDerefs(fn *ssa.Function) []derefSite {
 
 func c02(r *Report, s *Sem) {
 	p := r.P
+	defer r.Import(s, "C01", "R3", "R10", "no typed envelope leaves the decoder without the member that identifies its kind: the discriminator answers a kind's tag only when that member is present (request ⇒ uri, response ⇒ status, …), which is what lets dispatch code such as the ping predicates call methods on RequestCommand.URI without a nil test", 7, "tag only with its identifying member")
 	R1 := r.Rule("R1", "every dereference, in code reachable from a decode entry point, of a pointer that may come from a pointer field (or pointer-slice element) of a wire struct — directly or through a parameter — is dominated by a non-nil test of the same access path", 12)
 	R2 := r.Rule("R2", "every explicit panic reachable from a decode entry point is a listed caller-contract panic unrelated to wire data, or is discharged by a dominating guard on the peer-controlled value", 3)
 	R3 := r.Rule("R3", "the receiver's type switch covers every concrete type that can be produced by the wire→envelope conversion or converted to the envelope interface (its default arm panics)", 5)
@@ -424,6 +425,9 @@ func c02(r *Report, s *Sem) {
 			r.Check(R9, construct, p.instrPos(in), okLo && okHi && okOrder, fmt.Sprintf("low: %s; high: %s; low ≤ high: %v", whyLo, whyHi, okOrder))
 		})
 	}
+
+	R11 := r.Rule("R11", "accepted ⇒ encodable: every refusal the struct→wire function of an envelope kind or document wrapper makes on its own (a fresh error on a test of its fields) is implied by a refusal of the matching wire→struct function on the same members — otherwise a node cannot forward what it accepted", 5)
+	checkEncoderRefusals(r, s, R11)
 
 	// ---- R7
 	R7 := r.Rule("R7", "JSON null resets an interface: after json.Unmarshal into an interface-typed variable (the authentication / document decode) the value may be nil whatever the factory returned, so no method is invoked on it — directly, or in a lime function it is handed to — without a nil test", 2)
@@ -1019,4 +1023,199 @@ func subSliceOf(v, x ssa.Value) bool {
 		return false
 	}
 	return rec(v, 0) && n > 0
+}
+
+// ---- C02.R11: the encoder refuses only what the decoder refuses
+
+type refusalAtom struct{ field, test string }
+
+// refusals lists, for every return of fn whose error is made on the spot (errors.New / fmt.Errorf without an error
+// operand), the set of tests on fields of `root` that every path to it must have passed.
+func refusals(fn *ssa.Function, root ssa.Value, errIdx int) []map[refusalAtom]bool {
+	var out []map[refusalAtom]bool
+	isRootField := func(v ssa.Value) string {
+		v = stripConv(v)
+		for d := 0; d < 6; d++ {
+			switch x := v.(type) {
+			case *ssa.UnOp:
+				if x.Op == token.MUL {
+					v = stripConv(x.X)
+					continue
+				}
+			case *ssa.FieldAddr:
+				base := stripConv(x.X)
+				if base == root {
+					return structField(x.X.Type(), x.Field).Name()
+				}
+				if u, ok := base.(*ssa.UnOp); ok && u.Op == token.MUL {
+					if al, ok := u.X.(*ssa.Alloc); ok {
+						if sv := singleStore(al); sv != nil && stripConv(sv) == root {
+							return structField(x.X.Type(), x.Field).Name()
+						}
+					}
+				}
+				// embedded struct: the outermost field is named
+				v = base
+				if fa2, ok := base.(*ssa.FieldAddr); ok {
+					_ = fa2
+					name := structField(x.X.Type(), x.Field).Name()
+					if inner := stripConv(fa2.X); inner == root {
+						return name
+					}
+				}
+				continue
+			case *ssa.Call:
+				// len(x.F)
+				if b, ok := x.Call.Value.(*ssa.Builtin); ok && b.Name() == "len" {
+					v = stripConv(x.Call.Args[0])
+					continue
+				}
+			}
+			break
+		}
+		return ""
+	}
+	for _, rl := range returnLeaves(fn, errIdx) {
+		call, _ := callOf(rl.v)
+		if call == nil {
+			continue
+		}
+		g := call.Call.StaticCallee()
+		if g == nil || g.Pkg == nil {
+			continue
+		}
+		fresh := false
+		switch {
+		case g.Pkg.Pkg.Path() == "errors" && g.Name() == "New":
+			fresh = true
+		case g.Pkg.Pkg.Path() == "fmt" && g.Name() == "Errorf":
+			fresh = true
+			for _, o := range sliceOriginsElems(call.Call.Args[len(call.Call.Args)-1]) {
+				if isErrorType(stripConv(o).Type()) {
+					fresh = false
+				}
+				if mi, ok := o.(*ssa.MakeInterface); ok && isErrorType(mi.X.Type()) {
+					fresh = false
+				}
+			}
+		}
+		if !fresh {
+			continue
+		}
+		atoms := map[refusalAtom]bool{}
+		edges := mustEdges(rl.b)
+		if rl.to != nil {
+			if ifi := ifOf(rl.b); ifi != nil && rl.b.Succs[0] != rl.b.Succs[1] {
+				k := 1
+				if rl.b.Succs[0] == rl.to {
+					k = 0
+				}
+				edges = append(edges, edge{rl.b, k})
+			}
+		}
+		for _, me := range edges {
+			for _, c := range impliedConds(ifOf(me.from), me.succ == 0) {
+				if c.Op != token.EQL && c.Op != token.NEQ {
+					continue
+				}
+				x, y := c.X, c.Y
+				if _, isC := stripConv(x).(*ssa.Const); isC {
+					x, y = y, x
+				}
+				cst, isC := stripConv(y).(*ssa.Const)
+				if !isC {
+					continue
+				}
+				f := isRootField(x)
+				if f == "" {
+					continue
+				}
+				test := ""
+				switch {
+				case cst.Value == nil || zeroConst(cst) || isZeroInt(cst):
+					test = "empty"
+				default:
+					test = "= " + cst.Value.String()
+				}
+				if c.Op == token.NEQ {
+					test = "not " + test
+				}
+				atoms[refusalAtom{f, test}] = true
+			}
+		}
+		if len(atoms) > 0 {
+			out = append(out, atoms)
+		}
+	}
+	return out
+}
+
+func atomsString2(m map[refusalAtom]bool) string {
+	var l []string
+	for a := range m {
+		l = append(l, a.field+" "+a.test)
+	}
+	sort.Strings(l)
+	return strings.Join(l, " ∧ ")
+}
+
+func checkEncoderRefusals(r *Report, s *Sem, R string) {
+	p := r.P
+	n := 0
+	for _, cp := range codecPairs(p) {
+		if len(cp.Enc.Params) == 0 || len(cp.Dec.Params) < 2 {
+			continue
+		}
+		encRef := refusals(cp.Enc, cp.Enc.Params[0], cp.Enc.Signature.Results().Len()-1)
+		decRef := refusals(cp.Dec, cp.Dec.Params[1], cp.Dec.Signature.Results().Len()-1)
+		// a refusal reached only after earlier refusals were passed: the passed tests can be dropped, since in the
+		// complementary case the decoder refuses anyway
+		for changed := true; changed; {
+			changed = false
+			for _, dr := range decRef {
+				for a := range dr {
+					if !strings.HasPrefix(a.test, "not ") {
+						continue
+					}
+					pos := refusalAtom{a.field, strings.TrimPrefix(a.test, "not ")}
+					for _, other := range decRef {
+						if len(other) == 1 && other[pos] {
+							delete(dr, a)
+							changed = true
+						}
+					}
+				}
+			}
+		}
+		n++
+		if len(encRef) == 0 {
+			r.Trivial(R, "type "+cp.name+" / encoder makes no refusal of its own", p.pos(cp.Enc.Pos()), true, "")
+			continue
+		}
+		seen := map[string]bool{}
+		for _, er := range encRef {
+			key := atomsString2(er)
+			if seen[key] {
+				continue
+			}
+			seen[key] = true
+			ok := false
+			for _, dr := range decRef {
+				sub := len(dr) > 0
+				for a := range dr {
+					if !er[a] {
+						sub = false
+					}
+				}
+				if sub {
+					ok = true
+				}
+			}
+			r.Check(R, "type "+cp.name+" / encoder refuses {"+key+"} only if the decoder does", p.pos(cp.Enc.Pos()), ok,
+				"no refusal of the decoder is implied by this condition: a value the decoder accepted cannot be encoded again")
+		}
+	}
+	if n == 0 {
+		r.Undecided(R, "encoder/decoder pairs", "-", "none found")
+	}
 }
